@@ -24,8 +24,8 @@ import (
 // the property undecided.
 
 const (
-	lkNone = 0
-	lkRead = 1
+	lkNone  = 0
+	lkRead  = 1
 	lkWrite = 2
 )
 
@@ -53,12 +53,12 @@ type lockSite struct {
 }
 
 type lockAnalysis struct {
-	r        *core.Run
-	requires map[*ssa.Function]int
-	why      map[*ssa.Function]*lockSite // one unsatisfied site explaining the requirement
-	sites    []*lockSite                 // all direct access sites with their state (last iteration)
-	impls    map[*types.Func][]*types.Func
-	unknown  []string
+	r            *core.Run
+	requires     map[*ssa.Function]int
+	why          map[*ssa.Function]*lockSite // one unsatisfied site explaining the requirement
+	sites        []*lockSite                 // all direct access sites with their state (last iteration)
+	impls        map[*types.Func][]*types.Func
+	unknown      []string
 	closureEntry map[*ssa.Function]int
 }
 
